@@ -211,7 +211,14 @@ func C18_NodeLeader() {
 	}
 	nval = len(n.bu.Validations)
 	n.deliver(wd.net.nvm(ldr, 1, nvv, votes, &stub.Block{H: 1, Tag: 0x27, ProposalOK: true}).ToConsensusRawMessage())
-	env.Assert("C18.nv.validated", len(n.bu.Validations) == nval+1)
+	// (the three other members' votes must reach the quorum weight for the NEW_VIEW to be admissible at all)
+	voterIds := []byte{}
+	for _, i := range othersOf(me) {
+		voterIds = append(voterIds, wd.net.committee[i].Id[0])
+	}
+	if ref.weight(voterIds, allTrue(len(voterIds))) >= ref.q() {
+		env.Assert("C18.nv.validated", len(n.bu.Validations) == nval+1)
+	}
 	for _, call := range n.bu.Validations[nval:] {
 		env.Assert("C18.consumer_told_the_leader", len(call.Member) == 1 && call.Member[0] == ref.leader(nvv))
 	}
